@@ -102,6 +102,7 @@ type c16aOp struct {
 	Phase  string             `json:"phase,omitempty"`
 	Ts     int                `json:"ts,omitempty"`
 	Val    bool               `json:"val,omitempty"`
+	How    string             `json:"how,omitempty"` // podReady val=false: "" = Ready condition false, "phase" = pod Failed (inactive) with the condition still true
 }
 
 // ---- per-workload dispatcher over the package's fakeControllerFinder fixture ----
@@ -129,7 +130,32 @@ func (f *c16aFinder) forRef(ref *metav1.OwnerReference) *fakeControllerFinder {
 }
 
 func (f *c16aFinder) GetPodsForRef(ref *metav1.OwnerReference, ns string, sel *metav1.LabelSelector, active bool) ([]*corev1.Pod, int32, error) {
-	return f.forRef(ref).GetPodsForRef(ref, ns, sel, active)
+	pods, replicas, err := f.forRef(ref).GetPodsForRef(ref, ns, sel, active)
+	if active { // as the real ControllerFinder.ListPodsByWorkloads: inactive pods are dropped when only active ones are asked for
+		var kept []*corev1.Pod
+		for _, p := range pods {
+			if c16aActive(p) {
+				kept = append(kept, p)
+			}
+		}
+		pods = kept
+	}
+	return pods, replicas, err
+}
+
+func c16aActive(p *corev1.Pod) bool {
+	return p.Status.Phase != corev1.PodSucceeded && p.Status.Phase != corev1.PodFailed && p.DeletionTimestamp == nil
+}
+
+// available = what the statement calls not "unavailable": active and Ready
+func c16aAvailable(p *corev1.Pod) bool {
+	r := false
+	for _, c := range p.Status.Conditions {
+		if c.Type == corev1.PodReady && c.Status == corev1.ConditionTrue {
+			r = true
+		}
+	}
+	return r && c16aActive(p)
 }
 
 func (f *c16aFinder) GetExpectedScaleForPod(pod *corev1.Pod) (int32, error) {
@@ -393,14 +419,7 @@ func (w *c16aWorld) obsJobs() map[string]c16aJobObs {
 func (w *c16aWorld) obs() vu.Ev {
 	ready := map[string]bool{}
 	for _, name := range w.podNames {
-		p := w.getPod(name)
-		r := false
-		for _, c := range p.Status.Conditions {
-			if c.Type == corev1.PodReady && c.Status == corev1.ConditionTrue {
-				r = true
-			}
-		}
-		ready[name] = r
+		ready[name] = c16aAvailable(w.getPod(name))
 	}
 	return vu.Ev{"jobs": w.obsJobs(), "ready": ready}
 }
@@ -464,9 +483,15 @@ func (w *c16aWorld) exec(o c16aOp) vu.Ev {
 			}
 			w.h.Delete(ctx, event.DeleteEvent{Object: cur}, w.q)
 		case "podReady":
-			ev["pod"], ev["val"] = o.Pod, o.Val
+			ev["pod"], ev["val"], ev["how"] = o.Pod, o.Val, o.How
 			p := w.getPod(o.Pod)
-			c16aSetReady(p, o.Val)
+			p.Status.Phase = corev1.PodRunning
+			if !o.Val && o.How == "phase" {
+				p.Status.Phase = corev1.PodFailed
+				c16aSetReady(p, true)
+			} else {
+				c16aSetReady(p, o.Val)
+			}
 			if err := w.client.Status().Update(ctx, p); err != nil { // the fake API server keeps pod status behind the status subresource
 				panic(err)
 			}
@@ -709,11 +734,8 @@ func c16aRandomRun(out *[]vu.Ev, rng *rand.Rand, steps int, maxJobs int) {
 			}
 		default:
 			p := pick(d.w.podNames)
-			cur := false
-			for _, c := range d.w.getPod(p).Status.Conditions {
-				cur = cur || (c.Type == corev1.PodReady && c.Status == corev1.ConditionTrue)
-			}
-			d.w.exec(c16aOp{Op: "podReady", Pod: p, Val: !cur})
+			cur := c16aAvailable(d.w.getPod(p))
+			d.w.exec(c16aOp{Op: "podReady", Pod: p, Val: !cur, How: []string{"", "phase"}[rng.Intn(2)]})
 		}
 	}
 	d.w.exec(c16aOp{Op: "round"})
